@@ -58,7 +58,7 @@ def main(repo, out):
         'put_offset_label_here_if_it_has_time!(time);ifletSome(label)=&offset_label{panic!(' in late and 'self.prev_time=time;}' in late
     if not label_first: notes.append('unrecognised offset label placement')
 
-    r_rule = 'lettime_args=time_args.iter().map(|&x|x.unwrap_or(next_time)).collect::<BTreeSet<_>>();ifprev_time<next_time&&time_args.len()==1&&time_args.iter().next().unwrap()==&prev_time{returnLabel{label:ident!("label_{prev_offset}r"),time_label:prev_time};}Label{label:ident!("label_{next_offset}"),time_label:next_time}' in early
+    r_rule = 'lettime_args=time_args.iter().map(|&x|x.unwrap_or(next_time)).collect::<BTreeSet<_>>();ifprev_time<next_time&&time_args.len()==1&&time_args.iter().next().unwrap()==&prev_time{ifprev_offset==next_offset{returnLabel{label:ident!("label_{next_offset}"),time_label:prev_time};}returnLabel{label:ident!("label_{prev_offset}r"),time_label:prev_time};}Label{label:ident!("label_{next_offset}"),time_label:next_time}' in early
     if not r_rule: notes.append('unrecognised generate_label_at_offset')
     prev0 = 'letprev=matchdest_index{0=>(0,0),i=>(instr_offsets[i-1],script[i-1].time),};' in early
     if not prev0: notes.append('unrecognised generate_offset_labels (previous instruction)')
